@@ -10,4 +10,7 @@ func init() {
 	setProp("C08", "DESIGN.md §4 C08",
 		"Decides: no allocation reachable from the 26+ decoder entry points is sized by an input-supplied count without a dominating bound against the remaining input length.",
 		"absence of every runtime panic in all callees; panics inside encoding/json and text/scanner; that returned geometries re-encode without panicking.")
+	setProp("C11", "DESIGN.md §4 C11",
+		"Decides: stop-typestate of search callbacks in rtree (no callback invocation reachable after a non-nil result; inner helpers propagate the error itself; the entry maps exactly errors.Is(err,Stop) to nil).",
+		"completeness and exactly-once visiting of the searches for every tree shape; ordering of PrioritySearch; floating-point min/max behaviour.")
 }
